@@ -1328,6 +1328,17 @@ def own5(units, R):
                 p = cmp_parts(x)
                 if p and is_flag_test(p[0]) and p[2] == 0 and p[1] in ('==', '!='):
                     return (p[1] == '==') == (l[0] == 'T')
+                # (X->type & M) == K with the ownership bit inside M and clear in K: on the equal edge the bit is clear
+                bit = {'cJSON_IsReference': 256, 'cJSON_StringIsConst': 512}[flag]
+                if p and p[1] in ('==', '!=') and p[2] is not None and (p[2] & bit) == 0:
+                    m0 = strip_casts(p[0])
+                    if m0.get('k') == 'bin' and m0['op'] == '&':
+                        for (a, b) in ((m0['l'], m0['r']), (m0['r'], m0['l'])):
+                            a0 = strip_casts(a)
+                            mv = const_val(b)
+                            if a0.get('k') == 'mem' and a0['f'] == 'type' and expr_str(strip_casts(a0['b'])) == X and \
+                                    mv is not None and (mv & bit):
+                                return (p[1] == '==') == (l[0] == 'T')
                 return False
             ok = guarded_by(cfg, node.id, clear_edge)
             why = 'reachable only when %s->type & %s is clear' % (X, flag)
